@@ -860,13 +860,12 @@ pub fn main(args: &[String]) {
         for s in r["shapes"].as_array().cloned().unwrap_or_default() {
             shapes.insert(s.as_str().unwrap_or("").to_string());
         }
-        for s in r["samples"].as_array().cloned().unwrap_or_default() {
-            if samples.len() < 3 {
-                samples.push(s);
-            }
-        }
+        samples.extend(r["samples"].as_array().cloned().unwrap_or_default());
         viols.extend(r["violations"].as_array().cloned().unwrap_or_default());
     }
+    // samples are the lowest-numbered qualifying cases, whatever the worker count
+    samples.sort_by_key(|x| x["case"].as_u64().unwrap_or(u64::MAX));
+    samples.truncate(3);
     viols.sort_by_key(|v| (v["index"].as_u64().unwrap_or(0), v["variant"].as_u64().unwrap_or(0)));
     let scratch = simcore::lsp::scratch_root("c16-parent");
     let mut seen_fp: BTreeMap<String, u64> = BTreeMap::new();
